@@ -3,6 +3,7 @@ from typing import List
 
 from twisted.internet.base import ReactorBase
 
+from vlib import api
 from vlib.api import H, cover
 
 PROPERTY = "C13"
@@ -33,10 +34,12 @@ EXPLANATION = ("solver-enumerated interleavings of producer appends, reactor ite
                "inside the drain, run on the real callFromThread/runUntilCurrent and compared with a FIFO "
                "reference (exactly once, per-producer order, next-iteration rule, wake-up requests)")
 
-try:
-    from crosshair.tracers import NoTracing as _NoTracing, is_tracing as _is_tracing
-except ImportError:     # replay interpreter without CrossHair
-    _NoTracing = None
+_NoTracing = None
+if api.MODE == "sym":   # the replay interpreter never imports CrossHair
+    try:
+        from crosshair.tracers import NoTracing as _NoTracing, is_tracing as _is_tracing
+    except ImportError:
+        _NoTracing = None
 
 
 class _R(ReactorBase):
@@ -206,3 +209,6 @@ def _shards(tier):
 HARNESSES = [
     H(interleave, shards=_shards, timeout={"quick": 90, "thorough": 1200}, labels=("end", "nested")),
 ]
+
+VECTORS = {"interleave": [([0, 1, 3, 0, 3], -1, 0, False), ([0, 1, 3, 0, 3], 1, 3, False),
+                          ([0, 0, 1, 3, 2], 2, 1, False), ([3, 0, 3, 3, 0], 0, 0, False)]}
